@@ -288,6 +288,61 @@ def _xor(ctx, ins, at):
     return [S.map2(S.b_xor, ins[0], ins[1], np.bool_)]
 
 
+def _int_only(ins, opname):
+    for t in ins:
+        if t.kind != "i":
+            raise ModelInvalid(f"{opname}: operand of type {t.dtype} (integer tensor required)")
+
+
+@op("BitwiseAnd")
+def _bitand(ctx, ins, at):
+    _int_only(ins, "BitwiseAnd")
+    _same_type(ins, "BitwiseAnd")
+    return [S.map2(lambda a, b: S.i_bit("and", a, b, ins[0].dtype), ins[0], ins[1], ins[0].dtype)]
+
+
+@op("BitwiseOr")
+def _bitor(ctx, ins, at):
+    _int_only(ins, "BitwiseOr")
+    _same_type(ins, "BitwiseOr")
+    return [S.map2(lambda a, b: S.i_bit("or", a, b, ins[0].dtype), ins[0], ins[1], ins[0].dtype)]
+
+
+@op("BitwiseXor")
+def _bitxor(ctx, ins, at):
+    _int_only(ins, "BitwiseXor")
+    _same_type(ins, "BitwiseXor")
+    return [S.map2(lambda a, b: S.i_bit("xor", a, b, ins[0].dtype), ins[0], ins[1], ins[0].dtype)]
+
+
+@op("BitwiseNot")
+def _bitnot(ctx, ins, at):
+    _int_only(ins, "BitwiseNot")
+    return [S.map1(lambda a: S.i_not(a, ins[0].dtype), ins[0])]
+
+
+@op("BitShift")
+def _bitshift(ctx, ins, at):
+    _int_only(ins, "BitShift")
+    _same_type(ins, "BitShift")
+    if np.dtype(ins[0].dtype).kind != "u":
+        raise ModelInvalid(f"BitShift: operand of type {ins[0].dtype} (unsigned integer tensor required)")
+    d = _s(at["direction"])
+    if d not in ("LEFT", "RIGHT"):
+        raise ModelInvalid("BitShift direction")
+    kind = "left" if d == "LEFT" else "right_logical"
+    bits = np.dtype(ins[0].dtype).itemsize * 8
+
+    def f(a, n):
+        if not S.is_sym(n) and int(n) >= bits:
+            raise DomainError("BitShift by >= width (undefined in C++)")
+        if S.is_sym(n):
+            ctx.domain.append(n < bits)
+        return S.i_shift(kind, a, n, ins[0].dtype)
+
+    return [S.map2(f, ins[0], ins[1], ins[0].dtype)]
+
+
 def _same_type(ins, opname):
     dts = {t.dtype for t in ins}
     if len(dts) != 1:
@@ -1331,17 +1386,35 @@ def _gemm(ctx, ins, at):
 
 def einsum_T(eq: str, ops, dtype):
     eq = eq.replace(" ", "")
-    if "..." in eq:
-        raise NotEncodable("einsum ellipsis")
     if "->" in eq:
         lhs, rhs = eq.split("->")
     else:
-        lhs = eq
-        letters = sorted(set(lhs.replace(",", "")))
-        rhs = "".join(c for c in letters if lhs.replace(",", "").count(c) == 1)
+        lhs, rhs = eq, None
     terms = lhs.split(",")
     if len(terms) != len(ops):
         raise ModelInvalid("einsum operand count")
+    if "..." in eq:
+        # expand every ellipsis into fresh letters, aligned from the right (numpy broadcasting)
+        used = set(c for c in eq if c.isalpha())
+        pool = [c for c in "ABCDEFGHIJKLMNOPQRSTUVWXYZabcdefghijklmnopqrstuvwxyz" if c not in used]
+        ranks = []
+        for t, o in zip(terms, ops):
+            if t.count("...") > 1:
+                raise ModelInvalid("einsum: two ellipses in one term")
+            ranks.append(o.ndim - len(t.replace("...", "")) if "..." in t else 0)
+            if ranks[-1] < 0:
+                raise ModelInvalid("einsum rank")
+        me = max(ranks) if ranks else 0
+        ell = "".join(pool[:me])
+        terms = [t.replace("...", ell[me - r:] if r else "") for t, r in zip(terms, ranks)]
+        if rhs is None:
+            plain = "".join(terms)
+            rhs = ell + "".join(c for c in sorted(set(plain) - set(ell)) if plain.count(c) == 1)
+        else:
+            rhs = rhs.replace("...", ell)
+    if rhs is None:
+        letters = sorted(set(lhs.replace(",", "")))
+        rhs = "".join(c for c in letters if lhs.replace(",", "").count(c) == 1)
     dims = {}
     for t, o in zip(terms, ops):
         if len(t) != o.ndim:
